@@ -53,6 +53,45 @@ def body_factory(tier, seed):
                                   len(hs), [w[:3] for w in ws], len(afters)),
                               {"kind": "slow-handler", "version": version, "routes": [slow], "frames": frames,
                                "response_timeout": 0.01, "observation": seq, "ended": how})
+        # one reusable handler function (and hook) registered by TWO endpoint classes for different actions: each class handles
+        # the action it registered the function for, with its own hook -- a later registration elsewhere changes nothing
+        import asyncio as _asyncio
+        import importlib as _importlib
+        from ocpp.routing import after as _after, on as _on
+        for version in ("1.6", "2.0.1"):
+            pkg = "v16" if version == "1.6" else "v201"
+            base_cls = _importlib.import_module("ocpp." + pkg).ChargePoint
+            cr = _importlib.import_module("ocpp.%s.call_result" % pkg)
+            ran = []
+
+            def shared(self, **kw):
+                ran.append(("handler", type(self).__name__))
+                return cr.Heartbeat(current_time="t") if type(self).__name__ == "First" else cr.ClearCache(status="Accepted")
+
+            def shared_hook(self, **kw):
+                ran.append(("hook", type(self).__name__))
+            # (attribute name = function name: the decorators list function names, the map looks them up as attributes)
+            First = type("First", (base_cls,), {"shared": _on("Heartbeat")(shared), "shared_hook": _after("Heartbeat")(shared_hook)})
+            Second = type("Second", (base_cls,), {"shared": _on("ClearCache")(shared), "shared_hook": _after("ClearCache")(shared_hook)})
+            rec1, rec2 = D.Recorder(), D.Recorder()
+
+            async def go_shared():
+                import logging
+                a, b = First("a", D.Conn(rec1)), Second("b", D.Conn(rec2))
+                a.logger = b.logger = logging.getLogger("ov-silent")
+                await a.route_message('[2,"s1","Heartbeat",{}]')
+                await b.route_message('[2,"s2","ClearCache",{}]')
+                await a.route_message('[2,"s3","ClearCache",{}]')
+            _asyncio.run(go_shared())
+            rep.count("shared-function:" + version)
+            w1, w2 = O.sends(rec1.seq), O.sends(rec2.seq)
+            want_ran = [("handler", "First"), ("hook", "First"), ("handler", "Second"), ("hook", "Second")]
+            ok = ran == want_ran and [x[0] for x in w1] == [3, 4] and [x[0] for x in w2] == [3] and w1[1][2] == "NotImplemented"
+            if not ok:
+                rep.violation("C07:shared-function:%s" % version,
+                              "one function registered by class First for Heartbeat and by class Second for ClearCache (hooks likewise): "
+                              "invocations %r (expected %r), First wrote %r, Second wrote %r" % (ran, want_ran, [x[:3] for x in w1], [x[:3] for x in w2]),
+                              {"kind": "shared-function", "version": version, "invocations": ran, "first_wrote": w1, "second_wrote": w2})
         # one endpoint, several CALLs: an asynchronous after-hook that fails (or is slow) must not keep the hooks of later
         # CALLs from running -- each hook runs exactly once for its own CALL
         for version in ("1.6", "2.0.1"):
